@@ -107,6 +107,9 @@ self()
 void
 fold(long a, long b, long c)
 {
+  static FILE* tr = getenv("SIMGOMP_FOLD_TRACE") ? fopen(getenv("SIMGOMP_FOLD_TRACE"), "w") : nullptr;
+  if (tr)
+    fprintf(tr, "%ld %ld %ld y=%ld\n", a, b, c, g.st.yields);
   uint64_t h = g.st.hash;
   for (long v : { a, b, c })
     {
@@ -535,6 +538,7 @@ run_region(void (*fn)(void*), void* data, unsigned num_threads, WorkShare* combi
   s->ws_count = combined ? 1 : 0;
   s->single_count = 0;
   s->chunks = 0;
+  s->local_yields = 0; // like the workers': counted per region, so that the decision hash does not depend on the process history
   s->st = RUNNABLE;
   for (int i = 1; i < n; ++i)
     {
